@@ -1,13 +1,98 @@
-(* C16 — property theorems only (first stage: regression witnesses; the general theorems follow). *)
+(* C16 — property theorems only.  EnvModel.expand_run is the model of zix_expand_environment_strings
+   (/repo/src/posix/environment_posix.c as repaired by 93a479b, 17db61d, e7b260b, bda4119);
+   EnvSpec.spec_expand is the reference expander; `nz str` says the input is a C string (no interior
+   NUL); the environment is arbitrary (None = null environ, any entries, any order, duplicates,
+   entries without '='), and `o` is an arbitrary script of allocator answers. *)
 From Coq Require Import ZArith List Bool.
-From Zix Require Import EnvSpec EnvModel.
+From Zix Require Import EnvSpec EnvModel EnvProofs.
 Import ListNotations.
 Local Open Scope Z_scope.
 
-(* "a$X/rest" with X=val: the reference at offset 1 is replaced once and the scan continues after it *)
-Theorem expand_witness_offset :
+(* the scan terminates (never OutOfFuel) and never reads outside the NUL-terminated input or an
+   environment entry (never BadRead): every string, every environment, every allocator behaviour *)
+Theorem expand_terminates :
+  forall (e : env) (str : list Z) (o : list bool), nz str -> exists a, expand_run e str o = Ok a.
+Proof. exact expand_terminates_l. Qed.
+Print Assumptions expand_terminates.
+
+(* when the allocator does not refuse, the returned string is exactly the reference expansion,
+   for every input outside the excluded class (a '~' directly preceded by a name character) *)
+Theorem expand_eq_spec :
+  forall (e : env) (str : list Z) (o : list bool) (r : list Z),
+    nz str -> ~ In false o -> spec_expand e str = Some r ->
+    exists a, expand_run e str o = Ok a /\ result a = Some r.
+Proof. exact expand_eq_spec_l. Qed.
+Print Assumptions expand_eq_spec.
+
+(* stronger: also inside the excluded class the code behaves as the reference expander does
+   (there a '~' glued to a preceding name character is copied) *)
+Theorem expand_eq_expander :
+  forall (e : env) (str : list Z) (o : list bool),
+    nz str -> ~ In false o ->
+    exists a, expand_run e str o = Ok a /\ result a = Some (expand e 0 None str).
+Proof. exact expand_eq_expander_l. Qed.
+Print Assumptions expand_eq_expander.
+
+(* the lookup of the C code (prefix match over environ, then '=') is the first entry NAME=value *)
+Theorem find_env_is_lookup :
+  forall (e : env) (name : list Z), good_name name -> find_env e name = Ok (lookup e name).
+Proof. exact find_env_lookup. Qed.
+Print Assumptions find_env_is_lookup.
+
+(* any refused allocation request: NULL is returned and no block stays allocated *)
+Theorem expand_alloc_failure :
+  forall (e : env) (str : list Z) (o : list bool) (a : st) (k : nat),
+    nz str -> expand_run e str o = Ok a ->
+    (k < length (outcomes (s_log a)))%nat ->       (* the k-th request was made *)
+    answer o k = false ->                          (* and the allocator refused it *)
+    result a = None /\ live (s_log a) = [].
+Proof. exact expand_alloc_failure_l. Qed.
+Print Assumptions expand_alloc_failure.
+
+(* no refused request: exactly the returned block is live and it holds the expansion *)
+Theorem expand_alloc_success :
+  forall (e : env) (str : list Z) (o : list bool) (a : st),
+    nz str -> expand_run e str o = Ok a -> has_failed (s_log a) = false ->
+    exists i, s_out a = Some (i, expand e 0 None str) /\ live (s_log a) = [i] /\
+              s_len a = length (expand e 0 None str).
+Proof. exact expand_alloc_success_l. Qed.
+Print Assumptions expand_alloc_success.
+
+(* NULL is returned only when the allocator refused a request (never for the empty input,
+   an unset HOME or a null environ) *)
+Theorem expand_null_only_on_refusal :
+  forall (e : env) (str : list Z) (o : list bool) (a : st),
+    nz str -> expand_run e str o = Ok a -> result a = None ->
+    In false o /\ has_failed (s_log a) = true /\ live (s_log a) = [].
+Proof. exact expand_null_only_on_refusal_l. Qed.
+Print Assumptions expand_null_only_on_refusal.
+
+(* ---- non-vacuity and regression witnesses (bytes: '$'=36 '~'=126 '/'=47 ':'=58 '='=61) ---- *)
+
+(* X=val; "ab$X$X/~:$Y" : references at offset > 0, adjacent, an unset one, '~' with HOME unset *)
+Example witness_offsets :
   let e := Some [[88; 61; 118; 97; 108]] in
-  let s := [97; 36; 88; 47; 114; 101; 115; 116] in
+  let s := [97; 98; 36; 88; 36; 88; 47; 126; 58; 36; 89] in
+  nz s /\ spec_expand e s = Some [97; 98; 118; 97; 108; 118; 97; 108; 47; 126; 58; 36; 89] /\
   match expand_run e s [] with Ok a => result a | _ => None end = spec_expand e s.
-Proof. vm_compute. reflexivity. Qed.
-Print Assumptions expand_witness_offset.
+Proof. split; [repeat constructor; discriminate | split; vm_compute; reflexivity]. Qed.
+
+(* HOME=/h; "f.c~" is copied, "~/x:~" expands twice; AB=n before A=y does not shadow A; the value
+   "$A~" of B is not expanded again *)
+Example witness_tilde_and_lookup :
+  let e := Some [[72; 79; 77; 69; 61; 47; 104]; [65; 66; 61; 110]; [65; 61; 121]; [66; 61; 36; 65; 126]] in
+  spec_expand e [102; 46; 99; 126] = Some [102; 46; 99; 126] /\
+  spec_expand e [126; 47; 120; 58; 126] = Some [47; 104; 47; 120; 58; 47; 104] /\
+  spec_expand e [36; 65; 58; 36; 66] = Some [121; 58; 36; 65; 126] /\
+  spec_expand e [65; 126] = None /\
+  match expand_run e [126; 47; 120; 58; 126] [] with Ok a => result a | _ => None end
+    = Some [47; 104; 47; 120; 58; 47; 104].
+Proof. repeat split; vm_compute; reflexivity. Qed.
+
+(* empty input with a null environ: "" (not NULL); second request refused: NULL, nothing live *)
+Example witness_empty_and_failure :
+  match expand_run None [] [] with Ok a => result a | _ => None end = Some [] /\
+  match expand_run (Some [[65; 61; 118]]) [120; 36; 65] [true; false] with
+  | Ok a => (result a, live (s_log a), outcomes (s_log a)) | _ => (None, [0%nat], []) end
+    = (None, [], [true; false]).
+Proof. split; vm_compute; reflexivity. Qed.
